@@ -26,6 +26,18 @@ func executeData(p *Prog, fn *ssa.Function, depth int) ssa.Value {
 			}
 		}
 	}
+	// the template may be executed by a helper of the same package
+	for _, b := range fn.Blocks {
+		for _, in := range b.Instrs {
+			if call, ok := in.(*ssa.Call); ok {
+				if f := call.Call.StaticCallee(); f != nil && f.Pkg == fn.Pkg && f != fn {
+					if v := executeData(p, f, depth+1); v != nil {
+						return v
+					}
+				}
+			}
+		}
+	}
 	return nil
 }
 
